@@ -236,9 +236,15 @@ class World(EventDispatcher):
         (TODO) returns cached results from this method.
         """
         fringe = [component_type]
+        visited = set()
 
         while fringe:
             subtype = fringe.pop()
+            # With multiple inheritance a subtype can be reached through
+            # more than one path, report its components only once
+            if subtype in visited:
+                continue
+            visited.add(subtype)
             fringe += subtype.__subclasses__()
 
             for entity in self._components.get(subtype, []):
